@@ -16,7 +16,22 @@ import (
 	"go/ast"
 	"go/token"
 	"go/types"
+	"regexp"
 )
+
+// structRenames9: all generated files share one Lean namespace; a struct whose Go name is already
+// taken by another package's struct (ntp.Packet) is spelled with its package in the files of the
+// second package. Spelling only: applied to the whole text of that file.
+var structRenames9 = map[string]map[string]string{
+	"LeafNts": {"S_Packet": "S_NtsPacket"},
+}
+
+func renameStructs9(file, text string) string {
+	for old, nw := range structRenames9[file] {
+		text = regexp.MustCompile(`\b`+old+`\b`).ReplaceAllString(text, nw)
+	}
+	return text
+}
 
 // selfAppends: the `append` calls of fd that have the statement form `X = append(X, v)`.
 var selfAppends = map[*ast.CallExpr]bool{}
